@@ -20,7 +20,8 @@ def make_connection(open_script, log, transports, consumers=3, default_ok=True):
             if not ok:
                 raise OSError("scripted open failure")
             reader = asyncio.StreamReader()
-            writer = PI.FakeWriter(log=log, tag=len(transports))
+            # "instant": the open succeeds, but the very first write on the new transport (start-master) fails
+            writer = PI.FakeWriter(log=log, tag=len(transports), fail_on=1 if ok == "instant" else None)
             transports.append((reader, writer))
             return reader, writer
 
